@@ -236,6 +236,15 @@ def new_sm_chart(rng, n):
     if r < 0.3:
         return SMChart.blank()
     vals = [cc.rand_value(rng, n).strip() for _ in range(6)]
+    if rng.random() < 0.3:
+        # the words StepMania itself uses in these fields (any combination of them is just six strings)
+        words = [["dance-single", "dance-double", "pump-single", "lights-cabinet"],
+                 ["Challenge", "challenge", "SMANIAC", "smaniac", "Hard", "", "K. Ward", "Edit"],
+                 ["Beginner", "Easy", "Medium", "Hard", "hard", "HARD", "Challenge", "Edit", "Heavy", "Expert"],
+                 ["1", "10", "0", "99"], ["0,0,0,0,0", "0.5,0.5,0.5,0.5,0.5"]]
+        for i in range(5):
+            if rng.random() < 0.7:
+                vals[i] = rng.choice(words[i])
     if r < 0.7:
         return SMChart.from_msd(vals)
     c = SMChart()
